@@ -107,7 +107,8 @@ pub struct W1Case {
 pub const T0: i64 = 1_750_000_000; // 2025-06-15T15:06:40Z, a Sunday
 
 const HOSTS_STATIC: &[&str] = &["example.com", "EXAMPLE.com", "shop.example.com:8080", "other.org"];
-const HOSTS_MARKER: &[&str] = &["@sub.example.com", "@sub.shop.example.com", "www.@dom"];
+// "@sub.example.com" is, as a regex, a strict prefix of "@sub.example.com.au"
+const HOSTS_MARKER: &[&str] = &["@sub.example.com", "@sub.shop.example.com", "www.@dom", "@sub.example.com.au"];
 const CIDRS: &[&str] = &[
     "10.0.0.0/8",
     "10.1.0.0/16",
@@ -725,7 +726,7 @@ fn gen_case(rng: &mut Rng, prop: &str, mode: &str, tier: Tier) -> W1Case {
         if host_cluster && rng.coin() {
             // a family of rules on one site: exact host, host patterns covering it, any host; same few paths and
             // hardly any other trigger, so that an exact-host rule and a pattern-host rule match the same request
-            let host = rng.pick(&[Some("abc.example.com"), Some("@sub.example.com"), None, Some("ABC.example.com"), Some("@sub.shop.example.com"), Some("x.shop.example.com"), Some("www.@dom")]).clone();
+            let host = rng.pick(&[Some("abc.example.com"), Some("@sub.example.com"), None, Some("ABC.example.com"), Some("@sub.shop.example.com"), Some("x.shop.example.com"), Some("www.@dom"), Some("@sub.example.com.au"), Some("@sub.example.com")]).clone();
             let path = rng.pick_str(&["/a", "/blog/@slug", "/a"]);
             let scheme = rng.pick(&[None, None, Some("https"), Some("http")]).clone();
             r["source"] = json!({"scheme": scheme, "host": host, "ips": Value::Null, "path": path, "query": Value::Null, "headers": Value::Null,
